@@ -12,9 +12,63 @@ TRUST = ("Trusted base: the reference model in harness/ref (self-tested on hand-
          "Go's math and encoding/binary packages, protobuf-go, gorgonia's At()/Data() accessors, and deterministic "
          "case generation from (VERIF_SEED, property, index). Verdicts hold for the executions listed in the evidence file only.")
 
+DIFF = "runtime monitoring: differential execution of the real operators (operator API and single-node models through Run) against an independent reference model over seeded, boundary-biased workloads; "
+
+add("C01", "runtime monitoring: online checker of the dataflow trace specification over events recorded by a proxy on the exported Model.GetOperator field, per-node reference oracle on observed inputs, paired un-proxied run, fault injection at the proxy",
+    "Thousands of generated DAG programs (fan-out/fan-in, repeated operator types, multi-output nodes with arbitrary/omitted/skipped output names, skipped optional inputs, shadowed initializers) are loaded from bytes and run under a recording proxy; an online checker verifies node order, that every node receives exactly the values bound to its input names, positional output binding, per-node correctness against the reference, distinct operator instances and the result map; a second un-proxied run with all intermediates declared must be bit-identical; injected node failures must surface as Run errors. Exploration: programs are sampled.",
+    TRUST, "DESIGN.md §3 C01")
+add("C02", "runtime monitoring: deep before/after fingerprints of every caller tensor and weight (hook VerifParameters), differential oracle against a freshly loaded model (exact), per-node attribution through the operator proxy",
+    "Histories of 3..10 Runs (re-used tensor objects, fed-back outputs, other batch sizes, failing calls, injected node failures) on sample and generated models with caller tensors and weights in every special role; after each call all tensors ever passed and all weights must have unchanged fingerprints and the outcome must equal, bit for bit, that of a fresh model. Exploration over sampled histories.",
+    TRUST, "DESIGN.md §3 C02")
+add("C03", DIFF + "IEEE / wrap-around scalar semantics with exact comparison; thorough enumerates all 121^2 shape pairs x 12 operators x 4 must-compute types",
+    "Every generated case is judged against the broadcast index map and scalar semantics of the reference: MUST_EQUAL for float32/float64/int32/int64 (bool for logic), MAY_REFUSE for other accepted types, MUST_ERROR for incompatible shapes, mixed types and logic on non-bool; NaN, infinities, signed zeros, integer extremes and forced ties included. Exploration (bounded-exhaustive over shapes in the thorough tier).",
+    TRUST, "DESIGN.md §3 C03")
+add("C04", DIFF + "float64 reference with a sound, order-independent dot-product error bound",
+    "MatMul (ranks 1..5, broadcast batches), Gemm (all transpose/alpha/beta/C-shape combinations), LinearRegressor and Scaler are compared with a float64 reference within 2(K+4)u*sum|a_i b_i|; float32 must be computed, other types may be refused but never answered differently; mismatching inner/batch/bias shapes must fail. Exploration.",
+    TRUST, "DESIGN.md §3 C04")
+add("C05", DIFF + "direct nested-loop convolution in float64 with a sound error bound and a discriminative non-triviality rule",
+    "1-D/2-D convolutions over asymmetric geometries (H!=W, kh!=kw, per-axis strides/dilations, per-side pads, all auto_pad modes, bias absent/skipped/present) are compared with a direct convolution; invalid or unimplemented configurations must be refused. Exploration; two pinned-by-tests defects are recorded as known findings.",
+    TRUST, "DESIGN.md §3 C05")
+add("C06", DIFF + "float64 ONNX recurrences (step-wise from the observed trace for RNN/GRU), attribute honoured-or-refused check, metamorphic split relation on the real code",
+    "RNN/GRU/LSTM over all subsets of optional inputs, activation lists, linear_before_reset and input_forget are compared with the ONNX recurrence (gate order identified by a discriminative rule), attributes must be honoured or refused, and processing a sequence in two pieces with the state fed back must reproduce the whole. Exploration.",
+    TRUST, "DESIGN.md §3 C06")
+add("C07", DIFF + "exact comparison; invalid requests must produce an error",
+    "Reshape/Flatten/Squeeze/Unsqueeze/Shape over ranks 0..5, all element types, valid and ONNX-invalid parameters: valid requests must return exactly the input's elements in row-major order with the ONNX shape, invalid ones an error. Exploration.",
+    TRUST, "DESIGN.md §3 C07")
+add("C08", DIFF + "exact comparison over unique-valued tensors; must-compute core vs may-refuse classes",
+    "Transpose/Concat/Slice/Gather/Expand are compared element by element with the ONNX index formulas; requests in the must-compute core must be answered, other valid requests may be refused but never answered with other data or another shape, invalid ones must fail. Exploration; two gorgonia-rooted Slice defects are recorded as known findings.",
+    TRUST, "DESIGN.md §3 C08")
+add("C09", DIFF + "exact reductions, float64 max-subtracted softmax with tolerance, online structural assertions",
+    "ArgMax/ReduceMax/ReduceMin over every axis subset and keepdims, exact; Softmax/LogSoftmax over the whole float range against a float64 reference plus structural assertions (non-negative, slices sum to 1, finite for finite inputs). Exploration.",
+    TRUST, "DESIGN.md §3 C09")
+add("C10", DIFF + "Go float64 math rounded once, ulp tolerance, class-exact special values",
+    "17 unary operators over all accepted element types and the IEEE special-value pool (signed zeros, subnormals, infinities, NaNs, domain edges, exp overflow); shape and type preserved. Exploration.",
+    TRUST, "DESIGN.md §3 C10")
+add("C11", DIFF + "exact comparison",
+    "Every attribute form of Constant, ConstantOfShape over all value types and shapes, Cast over all 10x10 numeric pairs with in-range values; unsupported targets/attributes must be refused. Exploration.",
+    TRUST, "DESIGN.md §3 C11")
+add("C12", "runtime monitoring: differential decoding (onnx.TensorFromProto, initializer + Run, Constant + Run) against an independent reference decoder, exact comparison; child-process isolation with memory cap for hostile dims",
+    "TensorProtos of all 11 types, both encodings, ranks 0..4, random bit patterns and every payload/dims/data_type mutation: well-formed payloads must decode bit-exactly, everything else must be an error, never a panic or a process-fatal allocation (observed through the supervisor). Exploration; the UNDEFINED data_type leniency is a recorded known finding.",
+    TRUST, "DESIGN.md §3 C12")
+add("C13", "runtime monitoring: acceptance oracle from the declared signature, proxy trace check (no apply on rejection), deep fingerprints of supplied tensors, introspection cross-check",
+    "Signatures with fixed/symbolic/unspecified dimensions and shadowed inputs vs supplied sets deviating in one respect: Run must accept exactly the conforming sets, reject others with an error, nil outputs, no node applied and no tensor touched; introspection methods must agree with what Run enforces. Exploration.",
+    TRUST, "DESIGN.md §3 C13")
 add("C14", "runtime monitoring: bounded-exhaustive differential execution of the real broadcast helpers against an independent index-map reference, plus deep before/after fingerprints of the sources",
     "Every ordered pair of shapes of rank 0..4 with extents 1..4 (116281 pairs) is pushed through both helpers and every output element is compared with the reference index map; incompatible pairs must yield an error; the sources are fingerprinted before and after. Exhaustive within that bound, sampled beyond it (thorough: all 14 element types, random larger shapes, and a pass in the -race/checkptr binary).",
     TRUST, "DESIGN.md §3 C14")
+
+add("C15", "runtime monitoring: exhaustive enumeration of the finite gate space against the operators' declared constraints and an independent ONNX arity table; registry independence checks; proxy trace check 'no apply after a failed validate'",
+    "All 55 operators x input counts 0..max+2 x each of 14 element types at each position x nil at each optional position are pushed through ValidateInputs (8446 cases, complete), plus registry lookups (independence of instances, foreign names) and model-level 'gate before compute' traces. Exhaustive over the stated finite space.",
+    TRUST, "DESIGN.md §3 C15")
+add("C16", "runtime monitoring: metamorphic relations on the real code (batch decomposition, permutation, sub-selection)",
+    "Per-sample models (dense chains, Conv, RNN/GRU/LSTM, sample models) are run on a batch and on its rows/permutations/sub-selections; every sample's result must be the same up to rounding and success/failure must agree. Exploration.",
+    TRUST, "DESIGN.md §3 C16")
+add("C17", "Go race detector (-race build of the harness and of /repo) over stress workloads with injected yields, plus in-process monitors: sequential-baseline value comparison and weight fingerprints at quiescence",
+    "2..16 goroutines run a shared Model concurrently (own inputs, start barrier, loaders in parallel, PRNG-chosen yields at node boundaries, GOMAXPROCS rotated); the race detector log is parsed for reports, every result is compared bit for bit with its sequential baseline and weights are fingerprinted at quiescence. Held on the executions and interleavings listed in the evidence only.",
+    TRUST + " The race detector reports only races between accesses that were executed.", "DESIGN.md §3 C17")
+add("C18", "runtime monitoring: robustness oracle over hostile byte strings with recover() in-process and child-process isolation (write-ahead case log, memory cap, watchdog) for process-fatal failures; errors.Is classification; proxy trace check for foreign operators",
+    "Truncation of the small sample models at every offset (complete), byte-level and structured mutations of sample and generated models, random byte strings, opset lists and foreign operator types: loading must return a model or an error (never panic, abort or hang), unsupported opsets/operators must be refused with the dedicated errors and nothing may run after a foreign node. Exploration.",
+    TRUST, "DESIGN.md §3 C18")
 
 ALL = ["C%02d" % i for i in range(1, 19)]
 
